@@ -25,6 +25,7 @@ mod simop;
 mod c19;
 mod c13;
 mod c12;
+mod c07;
 mod c17;
 mod c14;
 mod c15;
@@ -124,6 +125,9 @@ fn main() {
                     "C13" => c13::generate(&mut rng, &tier, &mut emit),
                     "C03" | "C04" | "C05" => c03::generate(&mut rng, &prop, &tier, &mut emit),
                     "C12" => c12::generate(&mut rng, &tier, &mut emit),
+                    "C07" => c07::generate_c07(&mut rng, &tier, &mut emit),
+                    "C09" => c07::generate_c09(&mut rng, &tier, &mut emit),
+                    "C06" => c07::generate_c06(&mut rng, &tier, &mut emit),
                     "C14" => c14::generate(&mut rng, &tier, &mut emit),
                     "C15" => c15::generate(&mut rng, &tier, &mut emit),
                     "C17" => c17::generate_c17(&mut rng, &tier, &mut emit),
